@@ -22,7 +22,7 @@ struct XUtils : Engine {
     // length ladder: member names (and one string value) of every length 0..300 and around 512 / 1024, plain and with characters that
     // need escaping in a pointer; each document has a sibling name that differs only in the last character and one that is one longer
     static std::vector<int> ladder() { std::vector<int> v; for (int i = 0; i <= 300; i++) v.push_back(i); for (int i : { 511, 512, 513, 1023, 1024, 1025 }) v.push_back(i); return v; }
-    static std::string ladder_key(int n, int pat) { std::string k; for (int i = 0; i < n; i++) k += (char)('a' + (i * 7 + 3) % 26); if (pat == 1 && n > 0) { k[(size_t)n / 2] = '/'; k[(size_t)n - 1] = '~'; if (n > 2) k[0] = '~'; } return k; }
+    static std::string ladder_key(int n, int pat) { std::string k; for (int i = 0; i < n; i++) k += (char)('a' + (i * 7 + 3) % 26); if (pat == 1 && n > 0) { k[(size_t)n / 2] = '/'; k[(size_t)n - 1] = '~'; if (n > 2) k[0] = '~'; } if (pat == 2) { for (int i = 0; i < n; i += 5) k[(size_t)i] = (char)(0x80 + (i * 11) % 0x7f); } return k; }
     static RV ladder_doc(int n, int pat) {
         std::string K = ladder_key(n, pat), K2 = K, K3 = K + "x"; if (n > 0) K2[(size_t)n - 1] = K2[(size_t)n - 1] == 'z' ? 'y' : 'z'; else K2 = "q";
         RV leaf = RV::mk(RV::Obj); leaf.obj.emplace_back(K, RV::number(4));
@@ -30,11 +30,13 @@ struct XUtils : Engine {
         RV inner = RV::mk(RV::Obj); inner.obj.emplace_back(K, arr); inner.obj.emplace_back(K3, RV::number(5));
         RV o = RV::mk(RV::Obj); o.obj.emplace_back(K, RV::number(1)); o.obj.emplace_back(K2, RV::string(K)); o.obj.emplace_back(K3, inner); return o;
     }
-    static std::vector<RV> ladder_docs() { std::vector<RV> d; for (int n : ladder()) for (int pat = 0; pat < 2; pat++) { if (pat == 1 && n == 0) continue; d.push_back(ladder_doc(n, pat)); } return d; }
+    // numbers whose integer views coincide (saturation at INT_MAX / INT_MIN, truncation of fractions) although the values differ; pairwise far apart
+    static std::vector<double> awkward_numbers() { return { 0, 1, -1, 0.5, 1.5, -0.5, 2147483647.0, 2147483648.0, 2147483649.0, 3e9, 4e9, -2147483648.0, -2147483649.0, -3e9, -4e9, 1e15, 1e15 + 2, 1700000000000.0, 1700000360000.0, 1e30, 1e300, -1e30, -1e300 }; }
+    static std::vector<RV> ladder_docs() { std::vector<RV> d; for (int n : ladder()) for (int pat = 0; pat < 3; pat++) { if (pat && n == 0) continue; if (pat == 2 && n > 70 && n % 16) continue; d.push_back(ladder_doc(n, pat)); } return d; }
     static std::vector<RV> docset(const std::string& which) {
         if (which == "len") return ladder_docs();
         TreeAlphabet al; al.max_arity = 3; al.max_depth = 3; al.dup_keys = false; std::vector<RV> d; int n = 3;
-        if (which == "ptr") { al.leaves = { RV::number(1), RV::string("s") }; al.keys = { "a", "A", "0", "1", "01", "", "/", "~", "a/b", "m~n", "~0", "~1", "-" }; }
+        if (which == "ptr") { al.leaves = { RV::number(1), RV::string("s") }; al.keys = { "a", "A", "0", "1", "01", "", "/", "~", "a/b", "m~n", "~0", "~1", "-", "\xc3\xa9", "\xff~" }; }
         else if (which == "ptr4") { al.leaves = { RV::number(1) }; al.keys = { "a", "0", "", "/", "~1" }; n = 4; }
         else if (which == "docs") { al.leaves = { RV::number(1), RV::string("s") }; al.keys = { "a", "A", "a/b", "" }; }
         else if (which == "doc4") { al.leaves = { RV::mk(RV::Null), RV::number(1), RV::string("s") }; al.keys = { "a", "A", "a/b", "" }; al.max_arity = 2; n = 4; }
@@ -63,7 +65,7 @@ struct XUtils : Engine {
         return d;
     }
     // larger hand-written documents (deep nesting, long and awkward keys, 13-element arrays) and every single-edit mutation of them
-    std::vector<std::pair<size_t, size_t>> bigpairs; size_t first_chain = 0, end_chain = 0;
+    std::vector<std::pair<size_t, size_t>> bigpairs; size_t first_chain = 0, end_chain = 0, first_num = 0, end_num = 0;
     static void mutate(const RV& root, std::vector<RV>& out) {
         std::vector<std::vector<size_t>> paths; std::function<void(const RV&, std::vector<size_t>&)> rec = [&](const RV& v, std::vector<size_t>& p) { paths.push_back(p); size_t n = v.k == RV::Obj ? v.obj.size() : v.k == RV::Arr ? v.arr.size() : 0; for (size_t i = 0; i < n; i++) { p.push_back(i); rec(v.k == RV::Obj ? v.obj[i].second : v.arr[i], p); p.pop_back(); } };
         std::vector<size_t> p0; rec(root, p0);
@@ -87,6 +89,9 @@ struct XUtils : Engine {
           RV nested = RV::mk(RV::Arr); RV lvl = RV::mk(RV::Arr); for (int i = 0; i < 2600; i++) lvl.arr.push_back(RV::number(i)); for (int d = 0; d < 4; d++) { RV up = RV::mk(RV::Arr); up.arr.push_back(lvl); up.arr.push_back(lvl); lvl = up; } nested.arr.push_back(lvl); D.push_back(RV::mk(RV::Arr)); D.push_back(nested); bigpairs.push_back({ a + 2, a + 3 }); }
         // chains around the parser's nesting limit and beyond it (trees of any depth can be built through the API): arrays, objects, alternating;
         // partner documents differ only in the innermost value / have a member added or removed in the innermost container
+        { auto nums = awkward_numbers(); size_t b0 = D.size(); for (double x : nums) { RV a = RV::mk(RV::Arr); a.arr.push_back(RV::number(x)); a.arr.push_back(RV::string("t")); D.push_back(a); RV o = RV::mk(RV::Obj); o.obj.emplace_back("a", RV::number(x)); D.push_back(o); }
+          for (size_t i = 0; i < nums.size(); i++) for (size_t j = 0; j < nums.size(); j++) if (i != j && i < j) { bigpairs.push_back({ b0 + 2 * i, b0 + 2 * j }); bigpairs.push_back({ b0 + 2 * i + 1, b0 + 2 * j + 1 }); }
+          first_num = b0; end_num = D.size(); }
         first_chain = D.size();
         for (int shape = 0; shape < (int)cfg.optl("chainshapes", 3); shape++) for (int depth : { 998, 999, 1000, 1001, 1002, 1500 }) {
             auto chain = [&](int variant) { RV v = variant == 1 ? RV::number(2) : RV::number(1);
@@ -117,7 +122,7 @@ struct XUtils : Engine {
         init(); bool T = cfg.thorough(); std::vector<std::string> st;
         switch (mode) {
             case U_POINTER: { long k = cfg.optl("ptrlen", T ? 5 : 4); for (long i = 0; i <= k; i++) st.push_back("resolve_len" + std::to_string(i)); st.push_back("resolve_special"); st.push_back("lengths"); st.push_back("construct_lengths"); st.push_back("construct"); st.push_back("after_edits"); if (T) { st.push_back("resolve4"); st.push_back("construct4"); } break; }
-            case U_PATCH: st = { "single1", "single1_hooks", "indices", "casekeys", "bigpatch", "single2", "robust", "pairs" }; if (T) { st.push_back("single2full"); st.push_back("single3"); st.push_back("single4"); } break;
+            case U_PATCH: st = { "single1", "single1_hooks", "indices", "casekeys", "numbers", "bigpatch", "single2", "robust", "pairs" }; if (T) { st.push_back("single2full"); st.push_back("single3"); st.push_back("single4"); } break;
             case U_GENERATE: st = { "big", "pairs" }; if (T) st.push_back("pairs4"); break;
             case U_MERGE: st = { "bigapply", "biggenerate", "apply", "generate" }; if (T) { st.push_back("apply4"); st.push_back("generate4"); } break;
         }
@@ -191,10 +196,17 @@ struct XUtils : Engine {
                     for (auto& op : base) for (size_t m = 0; m < op.obj.size(); m++) for (auto& nk : variants(op.obj[m].first)) for (int keep = 0; keep < 3; keep++) {
                         RV o2 = op; o2.obj[m].first = nk; if (keep == 1) o2.obj.push_back(op.obj[m]); /* variant first, real member after */ if (keep == 2) o2.obj.insert(o2.obj.begin(), std::make_pair(op.obj[m].first, op.obj[m].first == "op" ? RV::string("test") : op.obj[m].second)); /* real member first, variant after */
                         RV p = RV::mk(RV::Arr); p.arr.push_back(o2); static Case c; c.kind = K_PATCH; c.iv[1] = -1; c.iv[3] = 0; std::string ser = rv_ser(docs2[d]) + "\x1f" + rv_ser(p); c.set(ser); ctr().extra[4]++; pool_run(c); } }
+            } else if (stage == "numbers") {
+                // "test" (and replace + test) over every pair of numbers whose integer views coincide although the values differ
+                auto nums = awkward_numbers();
+                for (size_t i = 0; i < nums.size(); i++) { if (!pool_take()) continue; for (int shape = 0; shape < 2; shape++) { RV doc = RV::mk(shape ? RV::Obj : RV::Arr); if (shape) doc.obj.emplace_back("a", RV::number(nums[i])); else doc.arr.push_back(RV::number(nums[i])); std::string path = shape ? "/a" : "/0";
+                    for (size_t j = 0; j < nums.size(); j++) { RV v = RV::number(nums[j]); RV nested = RV::mk(RV::Arr); nested.arr.push_back(v);
+                        for (int form = 0; form < 3; form++) { RV p = RV::mk(RV::Arr); if (form == 1) { RV ne = RV::mk(RV::Arr); ne.arr.push_back(RV::number(nums[i])); p.arr.push_back(mkop("replace", path, nullptr, &ne)); p.arr.push_back(mkop("test", path, nullptr, &nested)); } else { p.arr.push_back(mkop("test", path, nullptr, &v)); if (form == 2) p.arr.push_back(mkop("remove", path, nullptr, nullptr)); }
+                            static Case c; c.kind = K_PATCH; c.iv[1] = -1; c.iv[3] = 0; std::string ser = rv_ser(doc) + "\x1f" + rv_ser(p); c.set(ser); ctr().extra[4]++; pool_run(c); } } } }
             } else if (stage == "bigpatch") {
                 // every operation on every existing / insertable location of the larger documents (paths up to 9 tokens deep)
                 for (size_t d = 0; d < D.size(); d++) {
-                    bool is_orig = true; for (auto& pr : bigpairs) if (pr.second == d) { is_orig = false; break; } if (!is_orig || (d >= first_chain && d < end_chain)) continue;
+                    bool is_orig = true; for (auto& pr : bigpairs) if (pr.second == d) { is_orig = false; break; } if (!is_orig || (d >= first_chain && d < end_chain) || (d >= first_num && d < end_num)) continue;
                     std::vector<std::string> ex, ins; doc_paths(D[d], "", ex, ins); std::vector<std::string> all = ex; all.insert(all.end(), ins.begin(), ins.end());
                     std::vector<RV> ops; RV v1 = RV::number(1), v3 = RV::mk(RV::Obj);
                     for (auto& p : all) { ops.push_back(mkop("add", p, nullptr, &v1)); ops.push_back(mkop("add", p, nullptr, &v3)); }
